@@ -130,6 +130,20 @@ def base_files(tier):
                 b'#.change:\r\n#..file:\r\n#...meta: format=json, length=11'
                 b'\r\n{"a": "x"}\n#...diff: length=2, line_endings=unix\r\n'
                 b'a\n'))
+    # characters str.splitlines() breaks on, in un-indented text and raw in
+    # compact JSON (the line count of the input is the number of newline
+    # sequences, nothing else)
+    sp = 'a\u2028b\u2029c\x85d\x0ce\x0bf\x1cg\x1dh\x1ei\rj\n'
+    js = ('{"k": "%s"}' % sp[:-3].replace('\x0c', '').replace(
+        '\x0b', '').replace('\x1c', '').replace('\x1d', '').replace(
+            '\x1e', '').replace('\x85', '')).encode('utf-8') + b'\n'
+    pb = sp.encode('utf-8')
+    out.append(('line-break-chars', b'#diffx: encoding=utf-8, version=1.0\n'
+                b'#.change:\n#..preamble: length=%d\n%s'
+                b'#..meta: format=json, length=%d\n%s'
+                b'#..file:\n#...meta: format=json, length=%d\n%s'
+                b'#...diff: length=%d\n%s'
+                % (len(pb), pb, len(js), js, len(js), js, len(pb), pb)))
     if tier == 'thorough':
         from mc.props.c07 import extra_files
         out += extra_files()[:2]
